@@ -64,8 +64,10 @@ def run(ctx, replay=None):
         ctx.violation("Validate(profile attrs=%s opt=%s allowOther=%s nolist=%s, subject types=%s) accepted=%s: %s"
                       % (o["attrs"], o["opt"], o["allowOther"], o["nolist"], o["subject"], o["accepted"], o["why"]),
                       {"kind": "validate", "obs": _strip(o), "clauses": o["why"]})
+    e2e = _end_to_end(ctx, sample)
     evals = sum(s["evaluations"] for s in stats)
     cov = {
+        "end_to_end_histories": e2e,
         "states": ctx.states, "transitions": ctx.transitions, "traces_validated_against_impl": len(rows),
         "samples": [_strip(o) for o in sample[:3]],
         "evaluations": evals,
@@ -81,6 +83,63 @@ def run(ctx, replay=None):
     return ctx.finish("model_checking", cov, [
         "canonical subject order (index arithmetic) is shared between MCSubject.tla and the driver; the TLA+ judge on explicit "
         "subjects cross-checks it on the sample", "TLC and the Json module are trusted"])
+
+
+NAMES = ["", "CN", "O", "C", "1.2.3.4", "OU", "L"]
+
+
+def _end_to_end(ctx, sample):
+    """A sample of decided (profile, subject) pairs as directories and histories through the real sign run (driver gen with
+    steps), judged by SubjectE2E.tla: a rejected certificate stops the run before anything is generated - in a fresh
+    directory, and when the profile is tightened after the certificate was generated under a lenient one."""
+    import json as _json
+    from .certgen import case, cfg
+    from . import genjudge
+    picked, seen = [], set()
+    for o in sample:
+        if not o["subject"] or o["nolist"]:
+            continue
+        k = (tuple(o["attrs"]), tuple(o["opt"]), o["allowOther"], tuple(o["subject"]))
+        if k in seen:
+            continue
+        seen.add(k)
+        picked.append(o)
+        if len(picked) >= (60 if ctx.quick else 1500):
+            break
+    cases = []
+    for i, o in enumerate(picked, 1):
+        subj = ", ".join("%s=v%d" % (NAMES[a], j) for j, a in enumerate(o["subject"]))
+        strict = {"version": 1, "name": "p", "subjectAttributes": {"allowOther": o["allowOther"],
+                  "attributes": [{"attribute": NAMES[a], "optional": bool(op)} for a, op in zip(o["attrs"], o["opt"])]}}
+        lenient = {"version": 1, "name": "p"}
+        host = dict(cfg(subj), profile="p")
+        sib = cfg("CN=Sibling")
+        # history: lenient first, then tightened (+ the sibling's artifact deleted so that the run has something to do)
+        c = case(2 * i - 1, [("prof/p.yaml", lenient), ("host.yaml", host), ("sib.yaml", sib)], tag={"row": i, "kind": "later"})
+        c["steps"] = [{"put": [{"path": "prof/p.yaml", "text": _json.dumps(strict)}], "remove": ["sib.pem"], "flags": ["m", "c"]}]
+        cases.append(c)
+        cases.append(case(2 * i, [("prof/p.yaml", strict), ("host.yaml", host), ("sib.yaml", sib)], tag={"row": i, "kind": "fresh"}))
+    obs, _ = genjudge.run_gen(ctx, cases, tag="e2e")
+    by = {}
+    for ob in obs:
+        by.setdefault(ob["tag"]["row"], {})[ob["tag"]["kind"]] = ob
+    rows = []
+    def ent(h, alias):
+        return ([e for e in h["ents"] if e["alias"] == alias] or [{"hasCert": False, "certSha": ""}])[0]
+    for i, o in enumerate(picked, 1):
+        later, fresh = by[i]["later"], by[i]["fresh"]
+        h0, h1 = later["hist"][1], later["hist"][2]            # after run 1, after run 2
+        f_ents = {e["alias"]: e for e in fresh["ents"]}
+        rows.append({"id": i, "attrs": o["attrs"], "opt": o["opt"], "allowOther": o["allowOther"], "nolist": o["nolist"], "subject": o["subject"],
+                     "first": {"result": h0["result"]},
+                     "later": {"result": h1["result"], "siblingHasCert": ent(h1, "sib")["hasCert"], "hostChanged": ent(h1, "host")["certSha"] != ent(h0, "host")["certSha"]},
+                     "fresh": {"result": fresh["result"], "siblingHasCert": bool(f_ents.get("sib", {}).get("der")), "hostChanged": bool(f_ents.get("host", {}).get("der"))}})
+    failed = ctx.judge("SubjectE2E", rows, "e2e")
+    for r in rows:
+        for cl in failed.get(r["id"], []):
+            ctx.violation("C09 end to end: profile attrs=%s opt=%s allowOther=%s, subject types=%s: %s" % (r["attrs"], r["opt"], r["allowOther"], r["subject"], cl),
+                          {"kind": "e2e", "row": r, "what": cl})
+    return len(rows)
 
 
 def _w(ctx, rows):
